@@ -29,7 +29,8 @@ THEOREMS = ['Props.C10.' + t for t in [
     'add_column_preserves_structure', 'delete_column_preserves_structure',
     'edit_histories_preserve_structure', 'edit_history_then_setup_names',
     'rename_column_preserves', 'rename_layer_preserves', 'copy_layers_from_establishes_invariant',
-    'refine_layers_establishes_invariant_partial']]
+    'refine_layers_establishes_invariant_partial', 'snap_columns_to_layers_preserves_structure',
+    'snap_columns_to_nearest_layers_preserves_structure', 'identify_neighbours_identity']]
 LEVEL_TEXT = ('Partial proof. Lean 4 state-machine model of mulgrid (heap of nodes/columns/connections/layers/wells with explicit ids and '
               'hand-maintained back-references; add_/delete_ node/column/connection/layer/well, split_column, rename_column/layer, '
               'subdivide/triangulate/decompose_column(s), refine incl. the boundary walker and bisection, refine_layers, reduce, check(fix), '
@@ -37,7 +38,7 @@ LEVEL_TEXT = ('Partial proof. Lean 4 state-machine model of mulgrid (heap of nod
               'name lists are fresh after every operation that recomputes them (11 theorems); translate and rotate (any angle, any centre) '
               'preserve the whole invariant, so do rename_column and rename_layer (to an unused name) and copy_layers_from even re-establishes it from the structural part, refine_layers too except when the atmosphere layer name clashes with a generated name (the known finding, stated as the hypothesis of a _partial theorem with a proved counter-witness); add_node / delete_node / add_well / delete_well preserve it, add_layer / delete_layer / add_connection / delete_connection / add_column / delete_column (cascade included) its structural part, and so does EVERY history of these edits (plus translate and setup_*) each of which is '
               'a sensible request when applied (induction over the history); the bare add_/delete_ operations leave the name lists stale (kernel-evaluated witness). NOT '
-              'proved: preservation of the back-reference clauses by split_column, subdivide/decompose, refine, reduce, check(fix), snap_* - these '
+              'proved: preservation of the back-reference clauses by split_column, subdivide/decompose, refine, reduce, check(fix) (snap_* : structure proved, layer count after snapping not) - these '
               'are covered by the correspondence (every state of every explored history: model state == real state up to renaming of '
               'generated names, and Lean GeoInv verdict == Python oracle verdict clause by clause) and by the oracle on the real code.')
 LEVEL_NOTE = ('Trusted: Lean kernel (+propext, Classical.choice, Quot.sound); the hand-written model, tied to /repo on every run by the '
